@@ -77,6 +77,24 @@ impl Context {
         final(out).code@ == old(out).code@, final(out).data@ == old(out).data@, final(context).label_map@ == old(context).label_map@,
 //@end
 
+// a label denotes the index of the next instruction to be emitted; defining it twice is refused and changes nothing
+//@action src/lib/preprocessor/preprocessor.rs label = r#"[_a-zA-Z][_a-zA-Z0-9]*:"# as as_label
+//@contract
+//@strslice
+    requires vstd::std_specs::hash::obeys_key_model::<String>(),
+        s.is_ascii() && s@.len() >= 2,    // the token's regex: an ASCII identifier followed by ':'
+        s@.len() <= 0x7FFF_0000 && forall|k: String| #[trigger] old(context).label_map@.contains_key(k) ==> old(context).label_map@[k].source_position <= 0x7FFF_0000,
+    ensures
+        !has_key(old(context).label_map@, s@.drop_last()) ==> r.is_ok() && r->Ok_0@ == s@.drop_last()
+            && final(context).label_map@.contains_key(r->Ok_0)
+            && final(context).label_map@[r->Ok_0].map == old(out).code@.len() && final(context).label_map@[r->Ok_0].r#type is CODE
+            && final(context).label_map@[r->Ok_0].source_position == start
+            && final(context).label_map@ == old(context).label_map@.insert(r->Ok_0, final(context).label_map@[r->Ok_0]),
+        has_key(old(context).label_map@, s@.drop_last()) ==> r.is_err() && final(context).label_map@ == old(context).label_map@,
+        final(out).code@ == old(out).code@, final(out).data@ == old(out).data@, final(context).fn_map@ == old(context).fn_map@,
+        final(context).mapper == old(context).mapper, final(context).data_counter == old(context).data_counter,
+//@end
+
 //@action src/lib/preprocessor/preprocessor.rs call = quote_call, name_string as as_call
 //@contract
     requires vstd::std_specs::hash::obeys_key_model::<String>(), old(context).mapper.v_next() < usize::MAX,
@@ -279,6 +297,52 @@ impl Context {
                     && final(context).label_map@[l->0].r#type is DATA),
         // definitions that do not fit in the 64 KiB segment are diagnosed: nothing is emitted, no label defined
         old(context).data_counter + 2 * n > 65535 ==> r.is_err() && final(context).data_counter == old(context).data_counter
+            && final(out).data@ == old(out).data@ && final(context).label_map@ == old(context).label_map@,
+        final(out).code@ == old(out).code@, final(context).fn_map@ == old(context).fn_map@,
+//@end
+
+//@action src/lib/preprocessor/preprocessor.rs db_directive = label, quote_db, r#"\"[[:print:]]*\""# as as_db_string
+//@contract
+//@strslice
+    requires vstd::std_specs::hash::obeys_key_model::<String>(),
+        q.is_ascii() && q@.len() >= 2,     // the token's regex: printable ASCII between two quotes
+        q@.len() <= 0x7FFF_0000,           // a token is part of the source text (assumed below 2^31 bytes, as everywhere)
+    ensures
+        // a string defines one byte per character between the quotes: the label denotes the offset before it, the counter
+        // advances by exactly that size, one loader line is emitted
+        old(context).data_counter + (q@.len() - 2) <= 65535 ==> r.is_ok()
+            && final(context).data_counter == old(context).data_counter + (q@.len() - 2)
+            && final(out).data@.len() == old(out).data@.len() + 1
+            && final(out).data@.subrange(0, old(out).data@.len() as int) == old(out).data@
+            && (l is None ==> final(context).label_map@ == old(context).label_map@)
+            && (l is Some ==> final(context).label_map@.contains_key(l->0)
+                    && final(context).label_map@ == old(context).label_map@.insert(l->0, final(context).label_map@[l->0])
+                    && final(context).label_map@[l->0].map == old(context).data_counter
+                    && final(context).label_map@[l->0].r#type is DATA),
+        old(context).data_counter + (q@.len() - 2) > 65535 ==> r.is_err() && final(context).data_counter == old(context).data_counter
+            && final(out).data@ == old(out).data@ && final(context).label_map@ == old(context).label_map@,
+        final(out).code@ == old(out).code@, final(context).fn_map@ == old(context).fn_map@,
+//@end
+
+//@action src/lib/preprocessor/preprocessor.rs dw_directive = label, quote_dw, r#"\"[[:print:]]*\""# as as_dw_string
+//@contract
+//@strslice
+    requires vstd::std_specs::hash::obeys_key_model::<String>(),
+        q.is_ascii() && q@.len() >= 2,     // the token's regex: printable ASCII between two quotes
+        q@.len() <= 0x7FFF_0000,           // a token is part of the source text (assumed below 2^31 bytes, as everywhere)
+    ensures
+        // a string defines one word per character between the quotes: the label denotes the offset before it, the counter
+        // advances by exactly that size, one loader line is emitted
+        old(context).data_counter + 2 * (q@.len() - 2) <= 65535 ==> r.is_ok()
+            && final(context).data_counter == old(context).data_counter + 2 * (q@.len() - 2)
+            && final(out).data@.len() == old(out).data@.len() + 1
+            && final(out).data@.subrange(0, old(out).data@.len() as int) == old(out).data@
+            && (l is None ==> final(context).label_map@ == old(context).label_map@)
+            && (l is Some ==> final(context).label_map@.contains_key(l->0)
+                    && final(context).label_map@ == old(context).label_map@.insert(l->0, final(context).label_map@[l->0])
+                    && final(context).label_map@[l->0].map == old(context).data_counter
+                    && final(context).label_map@[l->0].r#type is DATA),
+        old(context).data_counter + 2 * (q@.len() - 2) > 65535 ==> r.is_err() && final(context).data_counter == old(context).data_counter
             && final(out).data@ == old(out).data@ && final(context).label_map@ == old(context).label_map@,
         final(out).code@ == old(out).code@, final(context).fn_map@ == old(context).fn_map@,
 //@end
